@@ -616,3 +616,34 @@ Qed.
 
 Lemma guard_is_valid S : wf_gen dv_val S = true -> valid_fschema S = true.
 Proof. apply wf_gen_mono. apply dv_is_py. Qed.
+
+(* ---------- the settings check is what keeps the type-map variable from shadowing an import ---------- *)
+Lemma settings_fresh tm sn : settings_ok tm sn = true -> mem_chars tm BUILTIN_NAMES = false.
+Proof.
+  unfold settings_ok, RESERVED_VARIABLE_NAMES. intro H.
+  repeat (apply andb_true_iff in H; destruct H as [H ?]).
+  match goal with X : negb (mem_chars tm BUILTIN_NAMES) = true |- _ => apply negb_true_iff in X; exact X end.
+Qed.
+
+Theorem schema_roundtrip_settings S tm sn :
+  settings_ok tm sn = true -> wf_gen dv_val S = true ->
+  eval_module (gen_module S tm sn) = Some (strip_std S).
+Proof. intros H W. apply schema_roundtrip_guarded; [exact W|]. eapply settings_fresh; exact H. Qed.
+
+Theorem strategy_roundtrip S tm sn m :
+  wf_gen dv_val S = true -> strategy_py S tm sn = Some m -> eval_module m = Some (strip_std S).
+Proof.
+  unfold strategy_py. intros W H. destruct (settings_ok tm sn) eqn:E; [|discriminate].
+  injection H as <-. apply schema_roundtrip_settings; assumption.
+Qed.
+
+(* nothing of the schema is lost in the module: two valid schemas with the same module are the same *)
+Theorem gen_injective S1 S2 tm sn :
+  settings_ok tm sn = true -> wf_gen dv_val S1 = true -> wf_gen dv_val S2 = true ->
+  gen_module S1 tm sn = gen_module S2 tm sn -> strip_std S1 = strip_std S2.
+Proof.
+  intros H W1 W2 E.
+  assert (A := schema_roundtrip_settings S1 tm sn H W1).
+  assert (B := schema_roundtrip_settings S2 tm sn H W2).
+  rewrite E in A. rewrite A in B. congruence.
+Qed.
